@@ -1224,8 +1224,8 @@ LARGE_SWEEP_CASES = [
 
 TIERS = {
     # histories: (jobs, per job); fault-free share; sweeps: number of (dataset) samples per sweep case
-    "quick": {"hist": (48, 6), "fault_free_jobs": 8, "sweeps": 1, "hot_sweeps": 1, "sweep_max": 260, "field_hist": 0,
-              "large_sweeps": 1, "large_max": 28, "shards": 1, "large_shards": 2},
+    "quick": {"hist": (48, 5), "fault_free_jobs": 8, "sweeps": 1, "hot_sweeps": 1, "sweep_max": 186, "field_hist": 0,
+              "large_sweeps": 1, "large_max": 28, "shards": 3, "large_shards": 2},
     "thorough": {"hist": (1200, 10), "fault_free_jobs": 150, "sweeps": 10, "hot_sweeps": 6, "sweep_max": None, "field_hist": 4,
                  "large_sweeps": 4, "large_max": 320, "shards": 8, "large_shards": 16},
 }
